@@ -127,7 +127,17 @@ def server_facts(tree):
                                        and _name(x.value.func) == "conn.send" for x in blk[:i])
                     if dumps_in_else and not sends_before:
                         oneway_first = True
-    return shape, single_gate, oneway_first, flag_after
+    # the plain call's exception response goes through the same serialize-or-fallback step as a failed batch member
+    ser = _find_func(tree, "Daemon", "_sendExceptionResponse")
+    single_fallback = any(isinstance(st, ast.Assign) and isinstance(st.value, ast.Call)
+                          and _name(st.value.func) == "self._serializeException"
+                          and [_name(a) for a in st.value.args] == ["serializer", "exc_value", "tbinfo"] for st in ser.body)
+    batch_fallback_args = []
+    for st in ast.walk(loop):
+        if isinstance(st, ast.Assign) and isinstance(st.value, ast.Call) and _name(st.value.func) == "self._serializeException":
+            batch_fallback_args.append([_name(a) for a in st.value.args])
+    same_fallback = single_fallback and batch_fallback_args == [["serializer", "xv", "tblines"]]
+    return shape, single_gate, oneway_first, flag_after, same_fallback
 
 
 def client_facts(tree, core_tree):
@@ -278,7 +288,7 @@ def extract():
     stree = ast.parse(open(server.__file__).read())
     ctree = ast.parse(open(client.__file__).read())
     otree = ast.parse(open(core.__file__).read())
-    shape, single_gate, oneway_first, flag_after = server_facts(stree)
+    shape, single_gate, oneway_first, flag_after, same_fallback = server_facts(stree)
     gen, raise_it, inv, call, meth = client_facts(ctree, otree)
     probe = dumps_call_probe()
     wprobe = wrapper_probe()
@@ -294,6 +304,8 @@ def singleCallGate : String := {json.dumps(single_gate)}
 def onewayReturnsBeforeReply : Bool := {b(oneway_first)}
 /-- `wasBatched = True` follows the loop -/
 def batchedFlagAfterLoop : Bool := {b(flag_after)}
+/-- a failed batch member and a failed plain call both go through Daemon._serializeException(serializer, <exception>, <traceback>) -/
+def sameSerializeOrFallback : Bool := {b(same_fallback)}
 /-- BatchProxy.__resultsgenerator -/
 def resultsGenShape : List String := {lean_str_list(gen)}
 /-- _ExceptionWrapper.raiseIt -/
